@@ -141,15 +141,21 @@ Definition reduced_correct_units (c : conv) (epsilon : Q) (total : list Q) : lis
 Definition used_below_demand (demand reduced : list Q) : bool :=
   same_len demand reduced && all_b (fun d => Qlt_b (- (1 # 1000000)) d) (lsub demand reduced).
 
+(* the body shared by the two asserts, on the summed percent-fed series `total`:
+     if include_protein or include_fat: return
+     reduced = total.in_units_bil_kcals_thou_tons_thou_tons_per_month() * (1 - epsilon)     (epsilon = 1e-4)
+     assert np.all((demand - reduced).kcals > -1e-6) *)
+Definition assert_used_below_demand (include_fat include_protein : bool) (c : conv) (demand_ total : list Q) : bool :=
+  if include_protein || include_fat then true
+  else used_below_demand demand_ (reduced_correct_units c (1 # 10000) total).
+
 Definition assert_feed_used_below_feed_demand (include_fat include_protein : bool) (c : conv)
            (feed_demand_ : list Q) (x : fb_in) : bool :=
-  if include_protein || include_fat then true
-  else used_below_demand feed_demand_ (reduced_correct_units c (1 # 10000) (sum_feed_sources x)).
+  assert_used_below_demand include_fat include_protein c feed_demand_ (sum_feed_sources x).
 
 Definition assert_biofuels_used_below_biofuels_demand (include_fat include_protein : bool) (c : conv)
            (biofuels_demand : list Q) (x : fb_in) : bool :=
-  if include_protein || include_fat then true
-  else used_below_demand biofuels_demand (reduced_correct_units c (1 # 10000) (sum_biofuel_sources x)).
+  assert_used_below_demand include_fat include_protein c biofuels_demand (sum_biofuel_sources x).
 
 (* ------------------------------------------------------------------ cross-round checks *)
 
